@@ -16,8 +16,13 @@ and the statement in its own copy of the database and dies. Histories run in wor
 histories the pristine content of every dict/list/set and `*cache*` attribute of all pony modules and
 classes, the Database, provider, schema, entities and attributes is restored (a cache added to pony later is
 covered unless it hides in a closure). Every mismatch is shrunk by step removal, and every reported shape is
-re-executed in a fresh forked child (history and reference) before it is reported; a mismatch that does not
-reproduce there breaks the harness (exit 2) instead of being reported.
+re-executed in a fresh forked child (history and reference) before it is reported; a mismatch that a worker
+saw but a fresh process does not reproduce is reported under its own signature ("differs in a worker although
+...": state outside the restored containers leaked between histories), never dropped.
+
+Signature = the shrunk history as statement KINDS (+ how each earlier statement relates to the last one: the
+same statement / same function, other arguments / shares a lambda or query text / other code), the class of
+modification, and what differed (stale answer / different answer / exception classes). Never concrete values.
 
 Results are canonicalised: entity -> (class, pk), unordered results sorted, exceptions -> class name.
 """
